@@ -6,6 +6,7 @@
    the class invariant of IntegerSet (its constructor filters the others out). *)
 From PV Require Import Lib.Py Spec.RegLangSpec Model.Regex.
 From PV Require Import Proofs.C31_sets Proofs.C31_regex Proofs.C31_dfa Proofs.C31_parser.
+From PV Require Import Proofs.C31_parser_rt Proofs.C31_total Proofs.C31_scan Proofs.C31_term.
 Open Scope Z_scope.
 
 (* nullable() decides membership of the empty word *)
@@ -70,6 +71,103 @@ Print Assumptions c31_parser_matches_grammar_refuted.
 Theorem c31_grammar_build_meaning : forall a w, L (build_alt a) w <-> L_alt a w.
 Proof. intros a. destruct build_meaning as (_ & _ & _ & H). apply H. Qed.
 Print Assumptions c31_grammar_build_meaning.
+
+(* ---- totality and the full DFA theorem.
+   [re_canon r] (Proofs/C31_total.v): every SymbolSet of r has ranges lo <= hi that are pairwise
+   disjoint — implied by IntegerSet's class invariant (sorted ranges with gaps), for which
+   [re_canonb] is a decidable check. The hypothesis [compile fuel r = Ok d] is decidable by
+   evaluation; it fails for the known findings (NULL state unreachable: Internal KeyError;
+   unbounded state growth: OutOfFuel for every fuel). *)
+Theorem c31_canon_decidable : forall r, re_canonb r = true -> re_canon r.
+Proof. exact re_canonb_canon. Qed.
+Print Assumptions c31_canon_decidable.
+
+(* the table-driven run never raises on a word over SIGMA = 0..255: every row is sorted, its
+   ranges are disjoint and cover 0..255 (bisect finds the range), every target is a state *)
+Theorem c31_run_total : forall fuel r d, re_canon r -> compile fuel r = Ok d ->
+  forall s, Forall in_sigma s -> exists b, run d s = Ok b.
+Proof. exact run_total. Qed.
+Print Assumptions c31_run_total.
+
+Theorem c31_dfa_correct : forall fuel r d, re_canon r -> compile fuel r = Ok d ->
+  forall s, Forall in_sigma s ->
+  (run d s = Ok true <-> L r s) /\ (run d s = Ok false <-> ~ L r s).
+Proof. exact dfa_correct_total. Qed.
+Print Assumptions c31_dfa_correct.
+
+(* ---- the repaired parser implements the reference grammar: for every well-formed concrete
+   syntax tree, parsing its text returns exactly the grammar-prescribed abstract syntax, whose
+   language is the tree's language (any fuel above a tree-dependent threshold) *)
+Theorem c31_parser_matches_grammar : forall a, wf_alt a ->
+  exists n, forall fuel, (n <= fuel)%nat -> parse fuel (unparse_alt a) = Ok (build_alt a).
+Proof. exact parser_matches_grammar. Qed.
+Print Assumptions c31_parser_matches_grammar.
+
+Theorem c31_parser_language : forall a, wf_alt a ->
+  exists n, forall fuel, (n <= fuel)%nat ->
+  exists r, parse fuel (unparse_alt a) = Ok r /\ forall w, L r w <-> L_alt a w.
+Proof. exact parser_language. Qed.
+Print Assumptions c31_parser_language.
+
+(* ---- scanner.scan is maximal munch for a non-nullable token regex: whenever it returns a token
+   list (any fuel), the tokens concatenate to the input and each token is the longest non-empty
+   prefix of the remaining input that the regex matches ([munch], Spec/RegLangSpec.v). The
+   nullable case is excluded: there the real scan() yields '' forever (known finding). When no
+   non-empty prefix matches, scan raises ValueError (Diag) and the theorem claims nothing. *)
+Theorem c31_scan_maximal_munch : forall fuel fuel2 r d chars toks,
+  re_canon r -> nullable r = false -> compile fuel r = Ok d -> Forall in_sigma chars ->
+  scan fuel2 d chars = Ok toks -> munch (L r) chars toks.
+Proof. exact scan_maximal_munch. Qed.
+Print Assumptions c31_scan_maximal_munch.
+
+(* scan, all outcomes: tokens = THE maximal-munch split (and they concatenate to the input);
+   ValueError only when no maximal-munch split exists; never an internal error on input over
+   SIGMA. Not proved: a fuel bound (scan re-reads the text after each token; termination for a
+   non-nullable regex is validated by the correspondence only). *)
+Theorem c31_scan_correct : forall fuel fuel2 r d chars,
+  re_canon r -> nullable r = false -> compile fuel r = Ok d -> Forall in_sigma chars ->
+  match scan fuel2 d chars with
+  | Ok toks => munch (L r) chars toks /\ concat toks = chars
+  | Diag _ => forall toks, ~ munch (L r) chars toks
+  | Internal _ => False
+  | OutOfFuel => True
+  end.
+Proof. exact scan_correct. Qed.
+Print Assumptions c31_scan_correct.
+
+(* a successful compile is stable under more fuel (compile itself need not terminate: known
+   finding "a*a*"; no general fuel bound exists) *)
+Theorem c31_compile_fuel_monotone : forall fuel k r d,
+  compile fuel r = Ok d -> compile (fuel + k) r = Ok d.
+Proof. exact compile_fuel_mono. Qed.
+Print Assumptions c31_compile_fuel_monotone.
+
+(* ---- termination of compile(), certified: compile() does not terminate in general (known finding
+   "a*a*": the derivatives are not finite modulo the implemented simplifications). A decidable
+   sufficient condition: a finite list S containing r and closed under the derivatives compile()
+   takes (one representative per non-empty derivative class; [closedb], Proofs/C31_term.v).
+   Then length S + 1 iterations suffice, and the only possible failure is the known KeyError for an
+   unreachable NULL state. The state list of any successful compile is such an S. *)
+Theorem c31_compile_terminates_certified : forall S r fuel,
+  closedb S = true -> memb r S = true -> (length S < fuel)%nat ->
+  (exists d, compile fuel r = Ok d) \/ compile fuel r = Internal KeyError.
+Proof. exact compile_terminates_cases. Qed.
+Print Assumptions c31_compile_terminates_certified.
+
+Example c31_nonvacuous3 :
+  closedb cert_example = true /\ memb (Cat (Sym [(97, 97)]) (Star (Sym [(97, 97)]))) cert_example = true /\
+  (exists d, compile 4 (Cat (Sym [(97, 97)]) (Star (Sym [(97, 97)]))) = Ok d).
+Proof. split; [vm_compute; reflexivity|]. split; [vm_compute; reflexivity|]. eexists. vm_compute. reflexivity. Qed.
+
+Example c31_nonvacuous2 :
+  let r := Or (Sym [(97, 97)]) (Cat (Sym [(97, 97)]) (Sym [(98, 98)])) in   (* a|ab *)
+  re_canonb r = true /\ nullable r = false /\
+  exists d, compile 50 r = Ok d /\ scan 100 d [97; 98; 97] = Ok [[97; 98]; [97]] /\
+            scan 100 d [97; 97; 98] = Ok [[97]; [97; 98]] /\ run d [97; 98] = Ok true.
+Proof.
+  cbv zeta. split; [reflexivity|]. split; [reflexivity|].
+  eexists. split; [vm_compute; reflexivity|]. vm_compute. repeat split.
+Qed.
 
 Example c31_nonvacuous :
   parse 100 [97; 98; 124; 99; 100] = Ok witness_fixed /\ re_valid witness_fixed /\
